@@ -41,6 +41,11 @@ type WOp struct {
 	Updates []Upd       `json:"updates,omitempty"`
 	Deletes [][]gn.Elem `json:"deletes,omitempty"`
 	Old     bool        `json:"old,omitempty"` // timestamp older than anything stored
+	// Pick>0 re-addresses the first update (or, without updates, the first
+	// delete) to the Pick-th leaf currently known for the target (sorted,
+	// modulo their number): origin and prefix are dropped, the path becomes
+	// that leaf's index path as plain elements.
+	Pick int `json:"pick,omitempty"`
 }
 
 // Step is one step of the schedule; the harness waits for quiescence after each.
@@ -86,26 +91,28 @@ type profile struct {
 	parks                  []string
 	maxSubs                int
 	preload                int // writer steps generated before anything else
+	starPct                int // percentage of all-targets subscriptions
+	pickPct                int // percentage of writer notifications addressed to an existing leaf
 }
 
 var profiles = map[string]profile{
-	"C04": {minTargets: 1, maxTargets: 2, modes: []string{"stream"}, gatedPct: 25, maxSteps: 30, maxSubs: 3, preload: 3,
+	"C04": {minTargets: 1, maxTargets: 2, modes: []string{"stream"}, gatedPct: 25, maxSteps: 30, maxSubs: 3, preload: 3, starPct: 30, pickPct: 40,
 		weights: map[string]int{"w": 14, "start": 5, "release": 5, "relw": 3, "grant": 3, "check": 2, "drain": 2},
 		wkinds:  []string{"noti", "noti", "noti", "noti", "noti", "noti", "noti", "noti", "reset", "sync", "updmeta"},
 		parks:   []string{"", "sub.pre-register", "sub.registered", "sub.walk.begin", "sub.walk.end"}},
-	"C05": {minTargets: 1, maxTargets: 3, modes: []string{"once", "poll", "poll"}, gatedPct: 20, maxSteps: 24, maxSubs: 3, preload: 5,
+	"C05": {minTargets: 1, maxTargets: 3, modes: []string{"once", "poll", "poll"}, gatedPct: 20, maxSteps: 24, maxSubs: 3, preload: 5, starPct: 35, pickPct: 30,
 		weights: map[string]int{"w": 6, "start": 6, "release": 3, "poll": 6, "eof": 2, "grant": 2, "drain": 2},
 		wkinds:  []string{"noti", "noti", "noti", "noti", "reset", "remove", "add"},
 		parks:   []string{"", "", "sub.walk.begin", "sub.walk.end"}},
-	"C07": {minTargets: 2, maxTargets: 4, modes: []string{"stream", "stream", "once", "poll"}, acl: true, gatedPct: 15, maxSteps: 30, maxSubs: 4, preload: 4,
+	"C07": {minTargets: 2, maxTargets: 4, modes: []string{"stream", "stream", "once", "poll"}, acl: true, gatedPct: 15, maxSteps: 30, maxSubs: 4, preload: 4, starPct: 60, pickPct: 30,
 		weights: map[string]int{"w": 14, "start": 6, "release": 3, "relw": 2, "poll": 2, "grant": 2, "check": 2, "drain": 2},
 		wkinds:  []string{"noti", "noti", "noti", "noti", "noti", "noti", "reset", "remove", "add"},
 		parks:   []string{"", "", "sub.registered", "sub.walk.begin"}},
-	"C08": {minTargets: 1, maxTargets: 2, modes: []string{"stream"}, gatedPct: 70, maxSteps: 36, maxSubs: 3, preload: 3, timeout: true,
+	"C08": {minTargets: 1, maxTargets: 2, modes: []string{"stream"}, gatedPct: 70, maxSteps: 36, maxSubs: 3, preload: 3, timeout: true, starPct: 30, pickPct: 60,
 		weights: map[string]int{"w": 18, "start": 4, "grant": 6, "sleep": 4, "check": 3, "drain": 3},
-		wkinds:  []string{"noti", "noti", "noti", "noti", "noti", "noti", "noti", "noti", "noti", "reset"},
+		wkinds:  []string{"noti", "noti", "noti", "noti", "noti", "noti", "noti", "noti", "noti", "noti", "noti", "noti", "noti", "noti", "reset"},
 		parks:   []string{""}},
-	"C14": {minTargets: 2, maxTargets: 4, modes: []string{"stream"}, gatedPct: 10, maxSteps: 30, maxSubs: 4, preload: 4,
+	"C14": {minTargets: 2, maxTargets: 4, modes: []string{"stream"}, gatedPct: 10, maxSteps: 30, maxSubs: 4, preload: 4, starPct: 35, pickPct: 30,
 		weights: map[string]int{"w": 14, "start": 6, "release": 2, "check": 2, "drain": 3},
 		wkinds:  []string{"noti", "noti", "noti", "noti", "noti", "reset", "remove", "remove", "add", "add"},
 		parks:   []string{"", "", "sub.registered"}},
@@ -157,6 +164,9 @@ func genWOp(pr profile, targets int) func(t *rapid.T) *WOp {
 		if w.Kind != "noti" {
 			return w
 		}
+		if rapid.IntRange(0, 99).Draw(t, "relative") < pr.pickPct {
+			w.Pick = rapid.IntRange(1, 5).Draw(t, "pick")
+		}
 		w.Origin = rapid.SampledFrom([]string{"", "", "", "o"}).Draw(t, "origin")
 		w.Prefix = genElems(t, 0, 1, false)
 		w.Old = rapid.IntRange(0, 9).Draw(t, "old") == 0
@@ -190,14 +200,17 @@ func genWOp(pr profile, targets int) func(t *rapid.T) *WOp {
 func genSub(pr profile, targets, users int) func(t *rapid.T) SubSpec {
 	return func(t *rapid.T) SubSpec {
 		s := SubSpec{Mode: rapid.SampledFrom(pr.modes).Draw(t, "mode")}
-		s.Target = rapid.IntRange(-1, targets-1).Draw(t, "target")
+		s.Target = rapid.IntRange(0, targets-1).Draw(t, "target")
+		if rapid.IntRange(0, 99).Draw(t, "star") < pr.starPct {
+			s.Target = -1
+		}
 		if s.Mode == "stream" {
 			s.UpdatesOnly = rapid.IntRange(0, 5).Draw(t, "updonly") == 0
 		}
 		s.User = rapid.IntRange(0, users-1).Draw(t, "user")
 		s.Gated = rapid.IntRange(0, 99).Draw(t, "gated") < pr.gatedPct
 		// origin: none / in the prefix / in the paths / (rarely) conflicting
-		where := rapid.SampledFrom([]string{"none", "none", "none", "prefix", "path", "both", "path+pelems"}).Draw(t, "originwhere")
+		where := rapid.SampledFrom([]string{"none", "none", "none", "none", "none", "none", "prefix", "prefix", "path", "path", "both", "path+pelems"}).Draw(t, "originwhere")
 		if where == "prefix" || where == "both" {
 			s.POrigin = "o"
 		}
@@ -210,7 +223,7 @@ func genSub(pr profile, targets, users int) func(t *rapid.T) SubSpec {
 		}
 		np := rapid.IntRange(1, 3).Draw(t, "npaths")
 		for i := 0; i < np; i++ {
-			p := PathSpec{Elems: genElems(t, 0, 3, true)}
+			p := PathSpec{Elems: genElems(t, 0, rapid.SampledFrom([]int{0, 1, 1, 2, 3}).Draw(t, "maxlen"), true)}
 			if where == "path" || where == "both" || where == "path+pelems" {
 				p.Origin = "o"
 			}
@@ -257,9 +270,75 @@ func genStep(pr profile, targets, nsubs int) func(t *rapid.T) Step {
 	}
 }
 
+// genBurstScenario is the structured C08 shape: subscribers start and are
+// drained, then rounds of update bursts hit a few leaves while some
+// subscribers have no credit, followed by partial credit, sleeps and drains.
+func genBurstScenario(t *rapid.T) *Scenario {
+	pr := profiles["C08"]
+	sc := &Scenario{Targets: rapid.IntRange(1, 2).Draw(t, "targets")}
+	sc.EventDriven = rapid.Bool().Draw(t, "eventdriven")
+	sc.TimeoutSec = rapid.SampledFrom([]int{0, 10, 10, 30}).Draw(t, "timeout")
+	nsubs := rapid.IntRange(1, 3).Draw(t, "nsubs")
+	for i := 0; i < nsubs; i++ {
+		sp := SubSpec{Mode: "stream", Target: rapid.IntRange(-1, sc.Targets-1).Draw(t, "target"), Gated: i == 0 || rapid.Bool().Draw(t, "gated")}
+		sp.UpdatesOnly = rapid.IntRange(0, 4).Draw(t, "updonly") == 0
+		np := rapid.IntRange(1, 2).Draw(t, "npaths")
+		for j := 0; j < np; j++ {
+			sp.Paths = append(sp.Paths, PathSpec{Elems: genElems(t, 0, 1, true)})
+		}
+		sc.Subs = append(sc.Subs, sp)
+	}
+	single := func(label string) *WOp {
+		w := &WOp{Kind: "noti", T: rapid.IntRange(0, sc.Targets-1).Draw(t, label+"t")}
+		switch rapid.IntRange(0, 9).Draw(t, label+"shape") {
+		case 0:
+			w.Deletes = [][]gn.Elem{genElems(t, 1, 2, true)}
+			w.Pick = rapid.IntRange(0, 3).Draw(t, label+"pick")
+		case 1:
+			w.Updates = []Upd{{Path: genElems(t, 1, 2, false), Val: genVal(t)}, {Path: genElems(t, 1, 2, false), Val: genVal(t)}}
+			w.Pick = rapid.IntRange(0, 3).Draw(t, label+"pick")
+		default:
+			w.Updates = []Upd{{Path: genElems(t, 1, 2, false), Val: genVal(t)}}
+			w.Pick = rapid.IntRange(0, 3).Draw(t, label+"pick")
+		}
+		return w
+	}
+	for i := 0; i < 4; i++ {
+		sc.Steps = append(sc.Steps, Step{Kind: "w", W: single("pre")})
+	}
+	for i := 0; i < nsubs; i++ {
+		sc.Steps = append(sc.Steps, Step{Kind: "start", Sub: i})
+	}
+	sc.Steps = append(sc.Steps, Step{Kind: "drain"})
+	rounds := rapid.IntRange(1, 3).Draw(t, "rounds")
+	for r := 0; r < rounds; r++ {
+		n := rapid.IntRange(2, 9).Draw(t, "burst")
+		for i := 0; i < n; i++ {
+			sc.Steps = append(sc.Steps, Step{Kind: "w", W: single("b")})
+			if rapid.IntRange(0, 7).Draw(t, "midgrant") == 0 {
+				sc.Steps = append(sc.Steps, Step{Kind: "grant", Sub: rapid.IntRange(0, nsubs-1).Draw(t, "gsub"), N: rapid.IntRange(1, 2).Draw(t, "gn")})
+			}
+		}
+		switch rapid.IntRange(0, 4).Draw(t, "after") {
+		case 0:
+			sc.Steps = append(sc.Steps, Step{Kind: "sleep", N: rapid.SampledFrom([]int{1, 5, 9, 10, 11, 29, 30, 31, 59, 60, 61}).Draw(t, "secs")})
+		case 1:
+			sc.Steps = append(sc.Steps, Step{Kind: "check"})
+		case 2:
+			sc.Steps = append(sc.Steps, Step{Kind: "grant", Sub: rapid.IntRange(0, nsubs-1).Draw(t, "gsub2"), N: rapid.IntRange(1, 3).Draw(t, "gn2")})
+		}
+		sc.Steps = append(sc.Steps, Step{Kind: "drain"})
+	}
+	_ = pr
+	return sc
+}
+
 func genScenario(prop string) func(t *rapid.T) *Scenario {
 	pr := profiles[prop]
 	return func(t *rapid.T) *Scenario {
+		if prop == "C08" && rapid.IntRange(0, 3).Draw(t, "structured") > 0 {
+			return genBurstScenario(t)
+		}
 		sc := &Scenario{Targets: rapid.IntRange(pr.minTargets, pr.maxTargets).Draw(t, "targets")}
 		sc.EventDriven = rapid.IntRange(0, 3).Draw(t, "eventdriven") > 0
 		if pr.timeout {
